@@ -182,11 +182,22 @@ class Flow:
                     out += self.origins(caller, arg, depth - 1, _seen, here)
             return out
         if isinstance(expr, ast.Attribute):
+            owner = []
             if isinstance(expr.value, ast.Name) and fi.cls is not None \
                     and fi.params and expr.value.id == fi.params[0]:
+                owner = [fi.cls.qualname]
+            else:
+                owner = [t[2:] for t in self.P.type_of(fi, fi.module,
+                                                       expr.value)
+                         if t.startswith("C:")]
+            if owner:
                 out = []
-                for k in m.mro(fi.cls.qualname) + m.subclasses(
-                        fi.cls.qualname):
+                ks = []
+                for oq in owner:
+                    for k in m.mro(oq) + m.subclasses(oq):
+                        if k not in ks:
+                            ks.append(k)
+                for k in ks:
                     c = m.classes.get(k)
                     if c is None:
                         continue
